@@ -112,7 +112,7 @@ class PE:
         self.default_pred = default_pred        # test text -> bool | None, consulted before forking
 
     # ------------------------------------------------------------------------------------------------ driver
-    def paths(self, func, args=None, max_paths=128, body=None):
+    def paths(self, func, args=None, max_paths=128, body=None, outer_env=None):
         """all feasible paths through func (or through the statement list `body` evaluated in func's context)"""
         out = []
         work = [[]]
@@ -121,13 +121,15 @@ class PE:
             self.decisions, self.cursor = dec, 0
             self.conds, self.stores, self.calls, self.mem, self.trace = [], [], [], {}, []
             self.subloads, self.substores = [], []
+            self.augs = []
             self.user = {}
             try:
-                kind, val, env = self._run(func, dict(args or {}), body, 0)
+                kind, val, env = self._run(func, dict(args or {}), body, 0, outer_env)
                 out.append(Outcome(kind, val, list(self.conds), list(self.stores), list(self.calls), env, dict(self.mem)))
                 out[-1].trace = list(self.trace)
                 out[-1].subloads, out[-1].substores = list(self.subloads), list(self.substores)
                 out[-1].user = self.user
+                out[-1].augs = list(self.augs)
             except NeedDecision:
                 work.append(dec + [False])
                 work.append(dec + [True])
@@ -135,8 +137,8 @@ class PE:
                 raise Incomplete('more than %d paths through %s' % (max_paths, func.qualname))
         return out
 
-    def _run(self, func, args, body, depth):
-        env = {}
+    def _run(self, func, args, body, depth, outer_env=None):
+        env = dict(outer_env) if outer_env else {}      # a closure evaluated in the (final) environment of its defining function
         f = func.node
         params = func.params
         for p in params:
@@ -201,6 +203,8 @@ class PE:
         if isinstance(s, ast.AugAssign):
             cur = self.expr(s.target, env, func, depth)
             rhs = self.expr(s.value, env, func, depth)
+            if isinstance(s.target, (ast.Attribute, ast.Subscript)):
+                self.augs.append((self.loc_text(s.target, env, func, depth), type(s.op).__name__, rhs, s, list(self.conds)))
             self.assign(s.target, self.binop(s.op, cur, rhs, s), env, func, depth, s)
             return
         if isinstance(s, ast.If):
@@ -269,6 +273,8 @@ class PE:
             self.trace.append((func.qualname, t.id, stmt))
         elif isinstance(t, (ast.Tuple, ast.List)):
             stars = [i for i, e in enumerate(t.elts) if isinstance(e, ast.Starred)]
+            if hasattr(v, 'pe_unpack'):
+                v = v.pe_unpack(len(t.elts), stars[0] if stars else None)
             if isinstance(v, (list, tuple)) and len(v) == len(t.elts) and not stars:
                 for e, x in zip(t.elts, v):
                     self.assign(e, x, env, func, depth, stmt)
@@ -412,6 +418,11 @@ class PE:
                 v = env.get(n.id)
                 if isinstance(v, Opaque) and v.text.startswith('@'):
                     return ast.parse(v.text[1:], mode='eval').body
+                if isinstance(getattr(v, 'loc_text', None), str) and v.loc_text != n.id:
+                    try:
+                        return ast.parse(v.loc_text, mode='eval').body       # a symbolic object that names itself
+                    except SyntaxError:
+                        return n
                 if isinstance(v, P) and len(v.t) == 1:
                     (m, c), = v.t.items()
                     if c == 1 and len(m) == 1 and m[0][1] == 1:
